@@ -401,14 +401,14 @@ Qed.
 Definition reqs_names (t : rtable) (reqs : list colreq) : list N :=
   map req_name (if memN (r_index t) (map req_name reqs) then reqs else CName (r_index t) :: reqs).
 
-Theorem cols_rect t reqs t' : Rect t -> reqs_okb t reqs = true -> rsel_cols t reqs = Ok t' ->
+Theorem cols_rect t reqs t' : Rect t -> reqs_okb t reqs = true -> rsel_cols0 t reqs = Ok t' ->
   Rect t' /\ r_cols t' = reqs_names t reqs /\ r_index t' = r_index t /\ rlen t' = rlen t /\
   (* scalars carried over *)
   (forall k, ~ In k (r_cols t) -> aget N.eqb k (r_data t) <> None -> aget N.eqb k (r_data t') = aget N.eqb k (r_data t)) /\
   (* a requested column of the table keeps its cells *)
   (forall c, In c (r_cols t) -> In c (reqs_names t reqs) -> aget N.eqb c (r_data t') = aget N.eqb c (r_data t)).
 Proof.
-  intros Hr Hok. unfold rsel_cols, reqs_names. set (reqs' := if memN _ _ then reqs else _).
+  intros Hr Hok. unfold rsel_cols0, reqs_names. set (reqs' := if memN _ _ then reqs else _).
   destruct (req_entries t reqs') as [es|] eqn:Ee; cbn [sbind]; [|discriminate].
   intros H; inversion H; subst t'; clear H. cbn [r_cols r_index r_data].
   pose proof (rect_cols_are t Hr) as Hc. destruct Hr as (Hn & Hi & _).
@@ -539,7 +539,7 @@ Theorem rstep_rect o : forall t t', Rect t -> rop_okb t o = true -> rstep t o = 
 Proof.
   induction o as [ix|l| |ix|k| | |l|key v|key|o' IH]; intros t t' Hr Hok; cbn [rstep rop_okb] in *; intros H.
   - apply (rows_rect _ _ _ Hr H).
-  - apply (cols_rect _ _ _ Hr Hok H).
+  - unfold rsel_cols in H. apply (cols_rect _ _ _ Hr Hok H).
   - apply (add_rect t t _ Hr Hr (fun c => iff_refl _) H).
   - destruct (rsel_rows t ix) as [a|] eqn:Ea; cbn [sbind] in H; [|discriminate].
     destruct (rows_rect _ _ _ Hr Ea) as (Ha & Hcols & _).
@@ -595,3 +595,10 @@ Proof.
   - cbn. intros H. eapply rstep_rect; eauto.
   - unfold rfinal. cbn [fold_left]. apply (IH o ops2); auto. now apply rnext_rect.
 Qed.
+
+(* cols[...] with repeated names: the repetitions are dropped first *)
+Theorem cols_rect_dedup t reqs t' : Rect t -> reqs_okb t (dedup_reqs reqs) = true -> rsel_cols t reqs = Ok t' ->
+  Rect t' /\ r_cols t' = reqs_names t (dedup_reqs reqs) /\ r_index t' = r_index t /\ rlen t' = rlen t /\
+  (forall k, ~ In k (r_cols t) -> aget N.eqb k (r_data t) <> None -> aget N.eqb k (r_data t') = aget N.eqb k (r_data t)) /\
+  (forall c, In c (r_cols t) -> In c (reqs_names t (dedup_reqs reqs)) -> aget N.eqb c (r_data t') = aget N.eqb c (r_data t)).
+Proof. intros Hr Hok H. unfold rsel_cols in H. exact (cols_rect _ _ _ Hr Hok H). Qed.
